@@ -27,8 +27,8 @@ structure Lawful {α : Type} (F : FieldOps α) (K : Type) [Field K] where
   val_neg : ∀ {a}, ok a → val (F.neg a) = - val a
   ok_square : ∀ {a}, ok a → ok (F.square a)
   val_square : ∀ {a}, ok a → val (F.square a) = val a * val a
-  cmove_zero : ∀ (u v : α), F.cmove 0 u v = u
-  cmove_one : ∀ (u v : α), F.cmove 1 u v = v
+  cmove_zero : ∀ {u v : α}, ok u → ok v → F.cmove 0 u v = u
+  cmove_one : ∀ {u v : α}, ok u → ok v → F.cmove 1 u v = v
   isZero_of_eq : ∀ {a}, ok a → val a = 0 → F.isZero a = 1
   isZero_of_ne : ∀ {a}, ok a → val a ≠ 0 → F.isZero a = 0
   equals_of_eq : ∀ {a b}, ok a → ok b → val a = val b → F.equals a b = 1
@@ -39,8 +39,8 @@ variable {α : Type} {F : FieldOps α} {K : Type} [Field K] (L : Lawful F K)
 
 theorem ok_cmove {c : Nat} (hc : c = 0 ∨ c = 1) {u v : α} (hu : L.ok u) (hv : L.ok v) : L.ok (F.cmove c u v) := by
   rcases hc with rfl | rfl
-  · rw [L.cmove_zero]; exact hu
-  · rw [L.cmove_one]; exact hv
+  · rw [L.cmove_zero hu hv]; exact hu
+  · rw [L.cmove_one hu hv]; exact hv
 
 theorem isZero_bit {a : α} (h : L.ok a) : F.isZero a = 0 ∨ F.isZero a = 1 := by
   by_cases e : L.val a = 0
